@@ -149,6 +149,8 @@ pub struct Exec<'p> {
     writers: Vec<Option<(Metric, std::rc::Rc<dyn std::any::Any>)>>,
     /// cfg.reuse_builder: one long-lived ArroyBuilder per index slot
     long_builders: std::collections::HashMap<usize, LongBuilder>,
+    /// C07: budget-limited answers of each index, remembered with the hash of the index's own bytes
+    answers_of: std::collections::HashMap<usize, (u64, Vec<Vec<(u32, u32)>>)>,
     /// cfg.default_tmp_unusable (changed only here, before the run's first step, and restored on drop)
     _tmp_guard: Option<TmpdirGuard>,
     use_long_builder: bool,
@@ -241,6 +243,7 @@ impl<'p> Exec<'p> {
             last_mem_hint: None,
             writers: (0..n).map(|_| None).collect(),
             long_builders: Default::default(),
+            answers_of: Default::default(),
             _tmp_guard: if plan.cfg.default_tmp_unusable && plan.cfg.private_tmpdir { Some(TmpdirGuard::new(&workdir.join("no-such-tmp"))) } else { None },
             use_long_builder: false,
         };
@@ -295,6 +298,7 @@ impl<'p> Exec<'p> {
             last_mem_hint: None,
             writers: (0..n).map(|_| None).collect(),
             long_builders: Default::default(),
+            answers_of: Default::default(),
             _tmp_guard: None,
             use_long_builder: false,
         };
@@ -571,9 +575,70 @@ impl<'p> Exec<'p> {
                     }
                 }
             }
+            // ... and the answers of budget-limited queries on the other indexes (budgets that are a function
+            // of that index alone) must be the ones given the last time its bytes were these very bytes
+            if self.world.indexes.len() > 1 && self.focus == "C07" {
+                for o in 0..self.world.indexes.len() {
+                    if o != ix {
+                        self.check_limited_answers_unchanged(o, &after)?;
+                    }
+                }
+            }
             self.decode_check(&after)?;
             self.trace.write_u64(dump_hash(&after));
         }
+        Ok(())
+    }
+
+    fn check_limited_answers_unchanged(&mut self, o: usize, dump: &Dump) -> R<()> {
+        let im = self.world.indexes[o].clone();
+        if im.state != Staleness::Built || im.items.len() < 24 {
+            return Ok(());
+        }
+        let mine = decode::dump_of_index(dump, im.index);
+        let h = dump_hash(&mine);
+        let db = self.db();
+        let n = im.items.len();
+        let own_entries = mine.len();
+        let budgets = [n, own_entries + 16, own_entries + 64, own_entries + 256];
+        let queries = query::query_vectors(&im, 3, self.plan.cfg.query_seed ^ 0xC07, Profile::Lattice, self.plan.cfg.data_seed);
+        let got: Option<Vec<Vec<(u32, u32)>>> = self.with_read(|_, txn| {
+            with_metric!(im.metric, D, {
+                let reader = Reader::<D>::open(txn, im.index, query::typed::<D>(db)).ok()?;
+                let mut all = Vec::new();
+                for q in &queries {
+                    for b in budgets {
+                        // (a large count: whatever the traversal did not gather shows in the tail of the answer)
+                        let mut qb = reader.nns(n);
+                        qb.search_k(std::num::NonZeroUsize::new(b.max(1)).unwrap());
+                        qb.oversampling(std::num::NonZeroUsize::new(1).unwrap());
+                        let r = std::panic::catch_unwind(AssertUnwindSafe(|| qb.by_vector(txn, q))).ok()?.ok()?;
+                        all.push(r.into_iter().map(|(i, d)| (i, d.to_bits())).collect::<Vec<_>>());
+                    }
+                }
+                Some(all)
+            })
+        });
+        let Some(got) = got else { return Ok(()) };
+        self.out.stats.probe("limited_answers_of_other_index_compared");
+        if let Some((h0, old)) = self.answers_of.get(&o) {
+            if *h0 == h && *old != got {
+                let k = old.iter().zip(&got).position(|(a, b)| a != b).unwrap_or(0);
+                let index = im.index;
+                self.report(
+                    &["C07"],
+                    "other_index_answers_changed",
+                    format!(
+                        "index {index} holds the same bytes as before but answers query #{} with budget {} differently: ids {:?} then, {:?} now",
+                        k / budgets.len(),
+                        budgets[k % budgets.len()],
+                        old[k].iter().map(|x| x.0).collect::<Vec<_>>(),
+                        got[k].iter().map(|x| x.0).collect::<Vec<_>>()
+                    ),
+                )?;
+            }
+        }
+        self.answers_of.insert(o, (h, got));
         Ok(())
     }
 
@@ -1507,8 +1572,8 @@ impl<'p> Exec<'p> {
                 }
             }
         }
-        self.structural_and_queries(ix, &d, &dec, true)?;
-        // C15: tree count
+        // C15: tree count (before the structural checks: a forest that is also broken is C01's finding and
+        // ends the run there, but the count the reader reports is C15's own clause)
         let im = self.world.indexes[ix].clone();
         let cap = split_after.unwrap_or(im.dim);
         let empty = DecodedIndex::default();
@@ -1528,6 +1593,7 @@ impl<'p> Exec<'p> {
         if let Some(e) = expect {
             self.report(&["C15"], "tree_count", format!("index {}: {e}", im.index))?;
         }
+        self.structural_and_queries(ix, &d, &dec, true)?;
         // probes from before/after dumps
         if let Some(b) = before {
             self.probe_build(ix, b, &d);
